@@ -515,6 +515,10 @@ where
                                 failure_persistence: None,
                                 rng_seed: RngSeed::Fixed(ctx.shard_seed(self.name, shard)),
                                 max_shrink_iters: 4096,
+                                // shrinking only decides how small the replay file is, never the verdict: bound it, so that a
+                                // failure whose every re-run is expensive (a hang costs its whole CPU budget) is still
+                                // reported within minutes
+                                max_shrink_time: 120_000,
                                 max_global_rejects: 65536,
                                 ..Config::default()
                             };
@@ -613,6 +617,12 @@ pub fn run_property(p: &Property, ctx: &Ctx) -> i32 {
             if o != part.name() {
                 continue;
             }
+        }
+        // a run that has already shown more than 50 violations reports them instead of looking for more (harvest mode
+        // collects signatures, not violations, and always runs every part)
+        if ctx.violations.lock().unwrap().len() > 50 {
+            eprintln!("  part {} skipped: more than 50 violations already shown", part.name());
+            continue;
         }
         let t = Instant::now();
         part.run(ctx);
